@@ -46,7 +46,7 @@ namespace hs
     struct SrcG // growing_block_allocator over the LIFO-checking simulated raw allocator
     {
         using type = fm::growing_block_allocator<sim::sim_lifo_allocator, Num, Den>;
-        static constexpr bool grows = true, faultable = true, bounded = true;
+        static constexpr bool grows = true, faultable = true, bounded = true, unbounded = true;
         template <class T, class... A>
         static T* make(void* slot, const ObjCfg& c, A... a)
         {
@@ -60,7 +60,7 @@ namespace hs
     struct SrcFX // fixed_block_allocator: one block only
     {
         using type = fm::fixed_block_allocator<sim::sim_lifo_allocator>;
-        static constexpr bool grows = false, faultable = true, bounded = true;
+        static constexpr bool grows = false, faultable = true, bounded = true, unbounded = false;
         template <class T, class... A>
         static T* make(void* slot, const ObjCfg& c, A... a)
         {
@@ -74,7 +74,7 @@ namespace hs
     struct SrcRAW // a plain RawAllocator: the library picks its default block allocator wrapper
     {
         using type = sim::sim_lifo_allocator;
-        static constexpr bool grows = true, faultable = true, bounded = true;
+        static constexpr bool grows = true, faultable = true, bounded = true, unbounded = true;
         template <class T, class... A>
         static T* make(void* slot, const ObjCfg& c, A... a)
         {
@@ -88,7 +88,7 @@ namespace hs
     struct SrcST // static_block_allocator on harness-provided storage inside SimHeap
     {
         using type = fm::static_block_allocator;
-        static constexpr bool grows = true, faultable = false, bounded = true;
+        static constexpr bool grows = true, faultable = false, bounded = true, unbounded = false;
         template <class T, class... A>
         static T* make(void* slot, const ObjCfg& c, A... a)
         {
@@ -105,7 +105,7 @@ namespace hs
     struct SrcVB // virtual_block_allocator (mmap/mprotect wrapped into SimHeap)
     {
         using type = fm::virtual_block_allocator;
-        static constexpr bool grows = true, faultable = true, bounded = true;
+        static constexpr bool grows = true, faultable = true, bounded = true, unbounded = false;
         template <class T, class... A>
         static T* make(void* slot, const ObjCfg& c, A... a)
         {
@@ -119,7 +119,7 @@ namespace hs
     struct SrcSB // BlockAllocator with an arbitrary size sequence
     {
         using type = sim::sim_block_allocator;
-        static constexpr bool grows = true, faultable = true, bounded = true;
+        static constexpr bool grows = true, faultable = true, bounded = true, unbounded = true;
         template <class T, class... A>
         static T* make(void* slot, const ObjCfg& c, A... a)
         {
@@ -133,7 +133,7 @@ namespace hs
     struct SrcDEF // the library's default_allocator (heap_allocator; malloc is wrapped into SimHeap)
     {
         using type = fm::default_allocator;
-        static constexpr bool grows = true, faultable = true, bounded = true;
+        static constexpr bool grows = true, faultable = true, bounded = true, unbounded = true;
         template <class T, class... A>
         static T* make(void* slot, const ObjCfg& c, A... a)
         {
@@ -617,6 +617,7 @@ namespace hs
         c.grows       = Src::grows;
         c.faultable   = Src::faultable;
         c.bounded_max = Src::bounded;
+        c.unbounded   = Src::unbounded;
         return c;
     }
 
